@@ -154,3 +154,53 @@ Fixpoint replay (sched : list tid) (s : st) (acc : list (list tid)) : list (list
               | None => (rev (enabled s :: acc), s, Some t)
               end
   end.
+
+(* ---- a signal interrupts a thread ----
+   Only a thread that is parked in a semaphore wait (its next operation is SemWait x and the count is 0) notices: the blocking
+   wait() fails with EINTR and util::WaitSemaphore does what Gen.PCQueueProg.wait_on_eintr says: wait again (the state does not
+   change), or return to the caller as if a unit had been acquired (the thread goes on without the unit). *)
+Definition skip_wait_p (s : st) (i : nat) : option st :=
+  match nth_error (prods s) i with
+  | Some (pc, todo) => Some (set_prods s (upd (prods s) i (next_pc produce_prog pc, if S pc =? length produce_prog then tl todo else todo)))
+  | None => None
+  end.
+Definition skip_wait_c (s : st) (j : nat) : option st :=
+  match nth_error (cons s) j with
+  | Some (pc, n) => Some (set_cons s (upd (cons s) j (next_pc consume_prog pc, if S pc =? length consume_prog then pred n else n)))
+  | None => None
+  end.
+Definition parked (s : st) (t : tid) : bool :=
+  match t with
+  | P i => match nth_error (prods s) i with
+           | Some (pc, _ :: _) => match nth_error produce_prog pc with Some (SemWait x) => sem_get s x =? 0 | _ => false end
+           | _ => false
+           end
+  | C j => match nth_error (cons s) j with
+           | Some (pc, S _) => match nth_error consume_prog pc with Some (SemWait x) => sem_get s x =? 0 | _ => false end
+           | _ => false
+           end
+  end.
+Definition interrupt (s : st) (t : tid) : option st :=
+  if parked s t then
+    match wait_on_eintr with
+    | EintrRetry => Some s
+    | EintrReturnAsAcquired => match t with P i => skip_wait_p s i | C j => skip_wait_c s j end
+    | EintrOpaque => None
+    end
+  else Some s.
+
+Inductive event := Run (t : tid) | Signal (t : tid).
+Definition step_i (s : st) (e : event) : option st := match e with Run t => step s t | Signal t => interrupt s t end.
+Definition run_i (sched : list event) (s : st) : option st :=
+  fold_left (fun o e => match o with Some x => step_i x e | None => None end) sched (Some s).
+Definition runs_of (sched : list event) : list tid := flat_map (fun e => match e with Run t => [t] | Signal _ => [] end) sched.
+
+(* run the given threads until none of them can step (bounded by the progress measure; out of fuel is reported as None) *)
+Fixpoint quiesce (fuel : nat) (active : list tid) (s : st) : option st :=
+  match fuel with
+  | O => None
+  | S f => match find (fun t => match step s t with Some _ => true | None => false end) active with
+           | Some t => match step s t with Some s' => quiesce f active s' | None => None end
+           | None => Some s
+           end
+  end.
